@@ -274,6 +274,24 @@ def call_builtin(fr, f, args: list, kwargs: dict, node: ast.AST | None) -> Any:
         import itertools
 
         return [tuple(t) for t in itertools.zip_longest(*[fr.iterate(a) for a in args], fillvalue=kwargs.get("fillvalue"))]
+    if name == "groupby":
+        # itertools.groupby: runs of *adjacent* items with equal keys
+        items = fr.iterate(args[0])
+        keyf = kwargs.get("key", args[1] if len(args) > 1 else None)
+        groups: list = []
+        for it in items:
+            k = fr.call(keyf, [it], {}, node) if keyf is not None else it
+            if groups and fr.compare(ast.Eq(), groups[-1][0], k, "groupby key"):
+                groups[-1][1].append(it)
+            else:
+                groups.append((k, [it]))
+        return [(k, list(g)) for k, g in groups]
+    if name in ("chain", "chain.from_iterable"):
+        seqs = fr.iterate(args[0]) if name == "chain.from_iterable" else list(args)
+        out_c: list = []
+        for sq in seqs:
+            out_c.extend(fr.iterate(sq))
+        return out_c
     if name == "range":
         if all(isinstance(a, int) for a in args):
             return list(range(*args))
@@ -317,6 +335,11 @@ def call_builtin(fr, f, args: list, kwargs: dict, node: ast.AST | None) -> Any:
         if name == "logging.getLogger":
             return SObj("Logger", {}, label="log")
         return None
+    if name in pai.OS_PATH_PURE:
+        if name == "os.path.splitext":
+            raise AnalysisError("os.path.splitext is not modelled")
+        parts = [a if isinstance(a, str) else pai.as_sstr(a).describe() for a in args]
+        return SStr.atom(f"{name.split('.')[-1]}({','.join(parts)})", nonempty=True)
     if name in ("os.getcwd",):
         return SStr.atom("cwd", nonempty=True)
     raise AnalysisError(f"builtin / external function {name} is not modelled ({fr.qual})")
@@ -671,6 +694,10 @@ def _re_call(fr, name: str, pattern: Any, args: list, kwargs: dict, node) -> Any
     else:
         comp = pattern.attrs["_p"]
         rest = args
+    if name in ("match", "search", "fullmatch") and isinstance(rest[0], SStr) and not rest[0].is_concrete():
+        # whether a pattern matches text that is not known: an unknown boolean, decided once per path
+        # (only the truth of the result may be used; its groups are not available)
+        return SObj("re.MaybeMatch", {"_b": SBool(f"re.{name}({comp.pattern!r}, {rest[0].describe()})")})
     if name in ("match", "search", "fullmatch"):
         m = getattr(comp, name)(conc(rest[0]))
         return None if m is None else SObj("re.Match", {"_m": m}, methods=("group", "start", "end", "span", "groups", "groupdict"))
